@@ -1,6 +1,7 @@
 """C03 — fermion-to-qubit encodings are faithful representations."""
 import itertools, random
 import numpy as np
+import random
 import vlib, fock
 from fractions import Fraction
 from vlib import frac_str
@@ -18,9 +19,17 @@ ASSUMPTIONS = ["tolerance 1e-7 on eigenvalues (1e-5 for the complex64 combinator
 CODE = {"Z": 1, "X": 2, "Y": 3}
 
 
+_CASE_RNG = random.Random(0)
+
+
+def spell(mapping):
+    """the dispatcher is case-insensitive: spell the encoding name in a random case"""
+    return _CASE_RNG.choice([mapping, mapping.upper(), mapping.lower(), mapping.capitalize(), mapping.swapcase()])
+
+
 def f2q(op, mapping, n, n_e=None, utd=False, spin=0):
     from tangelo.toolboxes.qubit_mappings.mapping_transform import fermion_to_qubit_mapping
-    return fermion_to_qubit_mapping(op, mapping, n_spinorbitals=n, n_electrons=n_e, up_then_down=utd, spin=spin)
+    return fermion_to_qubit_mapping(op, spell(mapping), n_spinorbitals=n, n_electrons=n_e, up_then_down=utd, spin=spin)
 
 
 def ladder_checks(ctx, n, mapping, utd):
@@ -158,7 +167,7 @@ def spectrum_case(ctx, rng, M):
             nq = max(nq, int(np.ceil(np.log2(max(len(idx), 1)))))
             ev = np.linalg.eigvalsh(fock.qubit_matrix(q, nq))
             ctx.count("spectrum:combinatorial")
-            # the qubit operator lives on 2^nq >= dim: extra eigenvalues are zeros
+            # the qubit operator lives on 2^nq >= dim: the extra eigenvalues belong to unused basis states
             rest = list(ev)
             ok = True
             for e in sec:
@@ -167,7 +176,9 @@ def spectrum_case(ctx, rng, M):
                     ok = False
                     break
                 rest.pop(k)
-            if not ok or any(abs(r) > 2e-5 for r in rest):
+            # basis states of the register that encode no configuration only see the constant term of the operator
+            const = float(np.real(H.terms.get((), 0.0)))      # the constant of the fermionic operator
+            if not ok or any(min(abs(r), abs(r - const)) > 2e-5 for r in rest):
                 ctx.violation(f"combinatorial(n_modes={M}, n_electrons=({na},{nb})): spectrum differs from the fixed-particle-number sector", {**case, "na": na, "nb": nb})
                 return False
     return True
@@ -203,6 +214,7 @@ def linearity_case(ctx, rng, n):
 
 
 def run(ctx):
+    _CASE_RNG.seed(ctx.rng.randint(0, 2 ** 31))
     rng = ctx.rng
     for n in ([4] if ctx.quick else [4, 6]):
         for mapping in ("JW", "BK", "JKMN"):
